@@ -4,11 +4,11 @@
 usage: confirm_mutant.py <PROP> <m-dir> <seed-id> [--patch <rebased.diff>] [--checks C01,C03] [--demo-args "..."]"""
 import argparse, json, os, re, shutil, subprocess, sys, time
 
-W = "/tmp/mut/confirm"
 ap = argparse.ArgumentParser()
 ap.add_argument("prop"); ap.add_argument("mdir"); ap.add_argument("sid")
-ap.add_argument("--patch"); ap.add_argument("--checks"); ap.add_argument("--demo-args", default=""); ap.add_argument("--crate")
+ap.add_argument("--patch"); ap.add_argument("--checks"); ap.add_argument("--demo-args", default=""); ap.add_argument("--crate"); ap.add_argument("--worktree", default="/tmp/mut/confirm"); ap.add_argument("--phase", default="both", choices=["both", "confirm", "check"])
 a = ap.parse_args()
+W = a.worktree
 
 
 def sh(cmd, cwd=W, timeout=1800):
@@ -28,8 +28,10 @@ if not crate:
     crate = m.group(1) if m else re.search(r"crates/([a-z0-9_-]+)/", open(patch).read()).group(1)
 demo_src = os.path.join(a.mdir, "demo.rs")
 meta = {"id": a.sid, "property": a.prop, "demo_crate": crate, "rebased": bool(a.patch), "ran": []}
-clean()
-os.makedirs(os.path.join(W, "crates", crate, "tests"), exist_ok=True)
+d = os.path.join("/verif/seeded", a.sid)
+if a.phase == "check":
+    meta = json.load(open(os.path.join(d, "meta.json")))
+    patch = os.path.join(d, "patch.diff")
 demo_cmd = "cargo test --offline --manifest-path crates/%s/Cargo.toml --test demo %s" % (crate, a.demo_args)
 
 
@@ -38,32 +40,44 @@ def put_demo():
     shutil.copy(demo_src, os.path.join(W, "crates", crate, "tests", "demo.rs"))
 
 
-put_demo()
-rc, out = sh(demo_cmd)
-meta["demo_passes_without_change"] = rc == 0
-meta["ran"].append(demo_cmd + " (unchanged tree) -> rc %d" % rc)
-clean()
-rc, out = sh("git apply %s" % patch)
-if rc != 0:
-    print("PATCH DOES NOT APPLY", out[-400:]); sys.exit(3)
-rc, out = sh("cargo build --workspace --offline 2>&1 | tail -3")
-meta["builds"] = rc == 0
-rc, out = sh("cargo test --workspace --no-fail-fast --offline 2>&1 | grep -E '^test result|FAILED|panicked' ")
-passed = sum(int(x) for x in re.findall(r"ok\. (\d+) passed", out))
-failed = sum(int(x) for x in re.findall(r"(\d+) failed", out))
-meta["suite_with_change"] = {"passed": passed, "failed": failed}
-meta["ran"].append("cargo test --workspace --no-fail-fast --offline (with change) -> %d passed, %d failed" % (passed, failed))
-put_demo()
-rc, out = sh(demo_cmd)
-meta["demo_fails_with_change"] = rc != 0
-meta["ran"].append(demo_cmd + " (with change) -> rc %d" % rc)
-clean()
-confirmed = meta["demo_passes_without_change"] and meta["builds"] and failed == 0 and passed >= 139 and meta["demo_fails_with_change"]
-meta["confirmed"] = confirmed
+def confirm_phase():
+  global confirmed
+  clean()
+  put_demo()
+  rc, out = sh(demo_cmd)
+  meta["demo_passes_without_change"] = rc == 0
+  meta["ran"].append(demo_cmd + " (unchanged tree) -> rc %d" % rc)
+  clean()
+  rc, out = sh("git apply %s" % patch)
+  if rc != 0:
+      print("PATCH DOES NOT APPLY", out[-400:]); sys.exit(3)
+  rc, out = sh("cargo build --workspace --offline 2>&1 | tail -3")
+  meta["builds"] = rc == 0
+  rc, out = sh("cargo test --workspace --no-fail-fast --offline 2>&1 | grep -E '^test result|FAILED|panicked' ")
+  passed = sum(int(x) for x in re.findall(r"ok\. (\d+) passed", out))
+  failed = sum(int(x) for x in re.findall(r"(\d+) failed", out))
+  meta["suite_with_change"] = {"passed": passed, "failed": failed}
+  meta["ran"].append("cargo test --workspace --no-fail-fast --offline (with change) -> %d passed, %d failed" % (passed, failed))
+  put_demo()
+  rc, out = sh(demo_cmd)
+  meta["demo_fails_with_change"] = rc != 0
+  meta["ran"].append(demo_cmd + " (with change) -> rc %d" % rc)
+  clean()
+  confirmed = meta["demo_passes_without_change"] and meta["builds"] and failed == 0 and passed >= 139 and meta["demo_fails_with_change"]
+  meta["confirmed"] = confirmed
+
+
+confirmed = False
+if a.phase != "check":
+    confirm_phase()
+else:
+    confirmed = meta["confirmed"]
 # our checks against /repo with the change
 checks = (a.checks.split(",") if a.checks else [a.prop])
 res = {}
-rc, out = sh("git apply %s" % patch, cwd="/repo")
+rc = 1
+if a.phase != "confirm" and confirmed:
+    rc, out = sh("git apply %s" % patch, cwd="/repo")
 if rc == 0:
     try:
         for c in checks:
@@ -77,12 +91,12 @@ meta["checks_quick"] = res
 meta["detected_by"] = [c for c, v in res.items() if v["exit"] == 1]
 m = re.search(r"(?is)(needs|manifest|trigger)[^\n]*\n?[^\n]*", notes)
 meta["what_it_needs"] = ""
-d = os.path.join("/verif/seeded", a.sid)
 if confirmed:
     os.makedirs(d, exist_ok=True)
-    shutil.copy(patch, os.path.join(d, "patch.diff"))
-    shutil.copy(demo_src, os.path.join(d, "demo.rs"))
-    if notes:
+    if a.phase != "check":
+        shutil.copy(patch, os.path.join(d, "patch.diff"))
+        shutil.copy(demo_src, os.path.join(d, "demo.rs"))
+    if notes and a.phase != "check":
         open(os.path.join(d, "notes.md"), "w").write(notes)
     json.dump(meta, open(os.path.join(d, "meta.json"), "w"), indent=1)
 print(json.dumps({k: meta[k] for k in ("id", "confirmed", "demo_passes_without_change", "suite_with_change", "demo_fails_with_change", "detected_by")}))
